@@ -76,6 +76,7 @@ type TypeDecl struct {
 	Invs       []Clause
 	Immutable  []string
 	Stable     []string // not changed by other threads once the object is shared (assumption; writes restricted)
+	Frozen     []string // like stable, and no call changes it on an object that existed before the call: written only by the declaring package while the object is under construction (writers checked)
 	ValsNonnil []string // containers (maps, slices) in these fields hold no nil values
 	Writers    []WritersDecl
 }
@@ -228,10 +229,14 @@ func (cs *Contracts) LoadFile(path string) {
 				cur.Key = key
 				cs.Ifaces[key] = cur
 			} else {
-				if _, dup := cs.Funcs[key]; dup {
+				if prev, dup := cs.Funcs[key]; dup && prev.Pkg == cur.Pkg && word == "func" && !prev.Trusted {
+					// a later block for the same function adds clauses (one block per property is easier to read)
+					cur = prev
+				} else if dup {
 					cs.errf(path, ln, "duplicate contract for %s", key)
+				} else {
+					cs.Funcs[key] = cur
 				}
-				cs.Funcs[key] = cur
 			}
 		case "spec":
 			cur, curType = nil, nil
@@ -299,6 +304,11 @@ func (cs *Contracts) LoadFile(path string) {
 			case "stable":
 				for _, f := range strings.Split(parts[2], ",") {
 					td.Stable = append(td.Stable, strings.TrimSpace(f))
+				}
+			case "frozen":
+				for _, f := range strings.Split(parts[2], ",") {
+					td.Stable = append(td.Stable, strings.TrimSpace(f))
+					td.Frozen = append(td.Frozen, strings.TrimSpace(f))
 				}
 			case "guarded_by":
 				lf := strings.SplitN(parts[2], ":", 2)
